@@ -17,10 +17,10 @@ func (t *Dense) Transpose() error {
 		return nil // cannot transpose scalars - no data movement
 	}
 
-	if t.IsView() && !t.o.IsContiguous() {
+	if !t.o.IsContiguous() {
 		// the elements of a non-contiguous view do not fill its window of the parent's
 		// backing array: moving them into transposed order would overwrite the parent's
-		// other elements
+		// other elements (the clone of such a view keeps the gaps in memory of its own)
 		return errors.Errorf("Cannot Transpose() a non-contiguous view in place. Materialize() it first")
 	}
 
